@@ -49,6 +49,16 @@ fn main() {
         eprintln!("usage: vcheck <Cxx> quick|thorough | vcheck replay <file>");
         std::process::exit(2);
     }
+    if args[1] == "worker-range" {
+        // subprocess entry point of the isolated sweeps: vcheck worker-range <Cxx> <tier> <label> <start> <end>
+        let tier = if args.get(3).map(|s| s.as_str()) == Some("thorough") { Tier::Thorough } else { Tier::Quick };
+        let (start, end) = (args[5].parse::<usize>().expect("start"), args[6].parse::<usize>().expect("end"));
+        let code = match args.get(2).map(|s| s.as_str()) {
+            Some("C13") => props::c13::worker_range(tier, &args[4], start, end),
+            _ => 2,
+        };
+        std::process::exit(code);
+    }
     if args[1] == "worker" {
         // subprocess entry point for checks that isolate cases: vcheck worker <Cxx> <case json>
         let code = match args.get(2).map(|s| s.as_str()) {
